@@ -1,6 +1,6 @@
 package main
 
-// Rules of C15 added after the rounds of independently authored breaking changes (DESIGN 11.6, 11.7).
+// C15.V3: enumerated options are validated raw against exactly the keys of the registries they index.
 
 import (
 	"go/token"
@@ -10,62 +10,223 @@ import (
 	"golang.org/x/tools/go/ssa"
 )
 
+// registryKeys: the constant keys of the package-level map pkg.name, whether it is initialised by a map literal or
+// filled in an init function.
 func registryKeys(c *Ctx, pkg, name string) []string {
 	g := c.global(pkg, name)
 	if g == nil {
 		return nil
 	}
-	var keys []string
-	eachInstr(c.spkg(pkg).Func("init"), func(i ssa.Instruction) {
-		mu, ok := i.(*ssa.MapUpdate)
-		if !ok {
-			return
-		}
-		if mm, ok := mu.Map.(*ssa.MakeMap); ok {
-			for _, r := range *mm.Referrers() {
-				if st, ok := r.(*ssa.Store); ok && st.Addr == g {
-					if k, ok := constString(mu.Key); ok {
-						keys = append(keys, k)
+	set := map[string]bool{}
+	for _, f := range c.fnsWhere(pkg, func(f *ssa.Function) bool { return isInitFn(f) || (f.Parent() != nil && isInitFn(f.Parent())) }) {
+		eachInstr(f, func(i ssa.Instruction) {
+			mu, ok := i.(*ssa.MapUpdate)
+			if !ok {
+				return
+			}
+			k, isK := constString(mu.Key)
+			if !isK {
+				return
+			}
+			switch m := mu.Map.(type) {
+			case *ssa.MakeMap:
+				for _, r := range *m.Referrers() {
+					if st, ok := r.(*ssa.Store); ok && st.Addr == g {
+						set[k] = true
+					}
+				}
+			case *ssa.UnOp:
+				if m.Op == token.MUL && m.X == ssa.Value(g) {
+					set[k] = true
+				}
+			}
+		})
+	}
+	if init := c.spkg(pkg).Func("init"); init != nil {
+		eachInstr(init, func(i ssa.Instruction) {
+			mu, ok := i.(*ssa.MapUpdate)
+			if !ok {
+				return
+			}
+			if mm, ok := mu.Map.(*ssa.MakeMap); ok {
+				for _, r := range *mm.Referrers() {
+					if st, ok := r.(*ssa.Store); ok && st.Addr == g {
+						if k, ok := constString(mu.Key); ok {
+							set[k] = true
+						}
 					}
 				}
 			}
-		}
-	})
+		})
+	}
+	var keys []string
+	for k := range set {
+		keys = append(keys, k)
+	}
 	sort.Strings(keys)
 	return keys
 }
 
+// c15rawness classifies how v relates to the option: "raw" — it is the option's value itself, handed on unchanged
+// (helper parameters, local variables, merges); "derived" — computed from it (ToLower, TrimSpace ...); "" — unrelated.
+func c15rawness(v ssa.Value, isOpt func(ssa.Value) bool, depth int, seen map[ssa.Value]bool) string {
+	if v == nil || depth > 8 || seen[v] {
+		return ""
+	}
+	seen[v] = true
+	if isOpt(v) {
+		return "raw"
+	}
+	merge := func(vs []ssa.Value) string {
+		out := ""
+		for _, x := range vs {
+			switch c15rawness(x, isOpt, depth+1, seen) {
+			case "derived":
+				return "derived"
+			case "raw":
+				out = "raw"
+			}
+		}
+		return out
+	}
+	switch x := v.(type) {
+	case *ssa.Phi:
+		return merge(x.Edges)
+	case *ssa.ChangeType:
+		return c15rawness(x.X, isOpt, depth+1, seen)
+	case *ssa.Parameter:
+		fn := x.Parent()
+		var args []ssa.Value
+		for k, p := range fn.Params {
+			if p == x {
+				for _, s := range gSites[fn] {
+					if k < len(s.Common().Args) {
+						args = append(args, s.Common().Args[k])
+					}
+				}
+			}
+		}
+		return merge(args)
+	case *ssa.UnOp:
+		if x.Op == token.MUL {
+			switch x.X.(type) {
+			case *ssa.Alloc, *ssa.FreeVar:
+				return merge(c15stores(x.X))
+			}
+		}
+	}
+	if c15derives(v, isOpt) {
+		return "derived"
+	}
+	return ""
+}
+
+// c15stringSetLiteral: the constant elements of a []string literal / the constant keys of a local map literal.
+func c15stringSetLiteral(v ssa.Value) ([]string, bool) {
+	switch x := v.(type) {
+	case *ssa.Slice:
+		arr, ok := x.X.(*ssa.Alloc)
+		if !ok {
+			return nil, false
+		}
+		var out []string
+		for _, r := range *arr.Referrers() {
+			if ia, ok := r.(*ssa.IndexAddr); ok {
+				for _, r2 := range *ia.Referrers() {
+					if st, ok := r2.(*ssa.Store); ok && st.Addr == ia {
+						s, isS := constString(st.Val)
+						if !isS {
+							return nil, false
+						}
+						out = append(out, s)
+					}
+				}
+			}
+		}
+		return out, len(out) > 0
+	case *ssa.MakeMap:
+		var out []string
+		for _, r := range *x.Referrers() {
+			if mu, ok := r.(*ssa.MapUpdate); ok && mu.Map == ssa.Value(x) {
+				s, isS := constString(mu.Key)
+				if !isS {
+					return nil, false
+				}
+				out = append(out, s)
+			}
+		}
+		return out, len(out) > 0
+	case *ssa.UnOp:
+		if x.Op == token.MUL {
+			if sv := c15stores(x.X); len(sv) == 1 {
+				return c15stringSetLiteral(sv[0])
+			}
+		}
+	}
+	return nil, false
+}
+
 func runC15V3(c *Ctx) {
-	load := c.fn("config", "load")
-	if load == nil {
+	_, reg := c15loadRegion(c)
+	if len(reg) == 0 {
+		c.undecided("C15.V3", "anchor|config.Load", "not found")
 		return
 	}
 	for _, opt := range []struct{ field, regPkg, reg string }{{"Strategy", "route", "Picker"}, {"Matcher", "route", "Matcher"}} {
 		want := registryKeys(c, opt.regPkg, opt.reg)
-		var got []string
+		isOpt := func(v ssa.Value) bool { _, ok := fieldOf(v, "config.Proxy", opt.field); return ok }
+		got := map[string]bool{}
 		raw := true
-		eachInstr(load, func(i ssa.Instruction) {
-			b, ok := i.(*ssa.BinOp)
-			if !ok || (b.Op != token.EQL && b.Op != token.NEQ) {
-				return
-			}
-			k, isK := constString(b.Y)
-			if !isK {
-				return
-			}
-			if _, isF := fieldOf(b.X, "config.Proxy", opt.field); isF {
-				got = append(got, k)
-				return
-			}
-			// compared value derives from the field through a transformation
-			if derives(b.X, func(v ssa.Value) bool { _, ok := fieldOf(v, "config.Proxy", opt.field); return ok }) {
-				got = append(got, k)
+		note := func(v ssa.Value, keys ...string) {
+			switch c15rawness(v, isOpt, 0, map[ssa.Value]bool{}) {
+			case "raw":
+			case "derived":
 				raw = false
+			default:
+				return
+			}
+			for _, k := range keys {
+				got[k] = true
+			}
+		}
+		eachInstrOf(reg, func(_ *ssa.Function, i ssa.Instruction) {
+			switch x := i.(type) {
+			case *ssa.BinOp:
+				// option == "key" (if chains, switch statements)
+				if x.Op != token.EQL && x.Op != token.NEQ {
+					return
+				}
+				if k, isK := constString(x.Y); isK {
+					note(x.X, k)
+				} else if k, isK := constString(x.X); isK {
+					note(x.Y, k)
+				}
+			case *ssa.Call:
+				// slices.Contains([]string{...}, option), oneOf(option, "a", "b"): the option and a literal list of
+				// strings handed to the same call
+				for _, a := range x.Call.Args {
+					if keys, ok := c15stringSetLiteral(a); ok {
+						for _, b := range x.Call.Args {
+							if b != a {
+								note(b, keys...)
+							}
+						}
+					}
+				}
+			case *ssa.Lookup:
+				// a local set literal indexed by the option
+				if keys, ok := c15stringSetLiteral(x.X); ok {
+					note(x.Index, keys...)
+				}
 			}
 		})
-		sort.Strings(got)
-		c.check("C15.V3", "config.load|proxy."+strings.ToLower(opt.field)+" validated as it is used", load.Pos(), raw && strings.Join(got, ",") == strings.Join(want, ",") && len(want) > 0,
-			"main looks the option up in route."+opt.reg+" (keys ["+strings.Join(want, ",")+"]) with the value exactly as configured; load must accept exactly those keys, compared against the raw field value (validated: ["+strings.Join(got, ",")+"], raw comparison: "+boolStr(raw)+") — a value that passes validation in another letter case yields a nil function and every request panics")
+		var gotKeys []string
+		for k := range got {
+			gotKeys = append(gotKeys, k)
+		}
+		sort.Strings(gotKeys)
+		c.check("C15.V3", "config.Load|proxy."+strings.ToLower(opt.field)+" validated as it is used", reg[0].Pos(), raw && strings.Join(gotKeys, ",") == strings.Join(want, ",") && len(want) > 0,
+			"main looks the option up in route."+opt.reg+" (keys ["+strings.Join(want, ",")+"]) with the value exactly as configured; loading must accept exactly those keys, compared against the raw option value (validated: ["+strings.Join(gotKeys, ",")+"], raw comparison: "+boolStr(raw)+") — a value that passes validation in another letter case yields a nil function and every request panics")
 	}
 }
 
@@ -75,5 +236,3 @@ func boolStr(b bool) string {
 	}
 	return "no"
 }
-
-// ---- C16.P4 / G2 ------------------------------------------------------------------------------------------------------
